@@ -104,6 +104,18 @@ Theorem decode_spec_validated :
 Proof. exact decode_spec_validated_lemma. Qed.
 Print Assumptions decode_spec_validated.
 
+(* wrap-freedom.  The model writes the uint16 cursor of Decode/AppendCode/walk explicitly
+   (cur_succ: 65535 + 1 = 0).  lin_ok demands of every sibling group that it ENDS at or below
+   the first special child value 65532 = 2^16 - 4 (translated constant invalidConsume3), and
+   then every scan of Decode stops at an index below 65532: the cursor never reaches 65535,
+   let alone wraps.  (ldecode_idx lists the index at which each scan stops.) *)
+Theorem decode_wrap_free :
+  forall nodes t, lin_ok nodes t = true ->
+  forall s, wfbs s = true ->
+  Forall (fun i : nat => N.of_nat i < 65532) (ldecode_idx (S (length s)) nodes 0 s).
+Proof. exact decode_cursor_bound_lemma. Qed.
+Print Assumptions decode_wrap_free.
+
 (* Decode and AppendCode never index outside the node array and never run out of fuel *)
 Theorem decode_no_panic :
   forall nodes t, lin_ok nodes t = true -> forall s, wfbs s = true -> decode nodes s <> None.
